@@ -800,8 +800,10 @@ func runC02R9(c *Ctx, rule string) {
 
 // barPart: v is part k (0, 1 or 2) of a "value|timestamp|signature" string, in any of the idioms met so far (the second
 // and third were added for neutral batch 8, a behaviour-preserving rewrite):
-//   strings.Split(x, "|")[k] / strings.SplitN(x, "|", 3)[k];
-//   a, rest, _ := strings.Cut(x, "|"); b, c, _ := strings.Cut(rest, "|")   — a = part 0, b = part 1, c = part 2
+//
+//	strings.Split(x, "|")[k] / strings.SplitN(x, "|", 3)[k];
+//	a, rest, _ := strings.Cut(x, "|"); b, c, _ := strings.Cut(rest, "|")   — a = part 0, b = part 1, c = part 2
+//
 // (for exactly three parts; the three-part requirement is a separate obligation).
 func barPart(v ssa.Value) (int64, bool) {
 	v = unwrap(v)
